@@ -86,9 +86,16 @@ Proof.
     destruct G as (js & G1 & G2). exists (JObj js). cbn. fold json_pairs. rewrite G1. cbn. fold pl_pairs. now rewrite G2.
 Qed.
 
+(* what _is_json_serializable accepts, JSON gives back unchanged (tuples and sets are not accepted any more) *)
+Lemma ser_plain : forall p, is_json_serializable p = true -> plainb p = true.
+Proof.
+  (* with tuples and sets refused, _is_json_serializable is literally the predicate "JSON gives it back unchanged" *)
+  intros p Hp. exact Hp.
+Qed.
+
 (* ------------------------------------------------------------------ dtype strings *)
-Lemma str_dtype_str : forall d, supported d = true -> str_dtype (dtype_str d) = Some d.
-Proof. destruct d; intro H; try discriminate; reflexivity. Qed.
+Lemma str_dtype_str : forall d, str_dtype (dtype_str d) = Some d.
+Proof. destruct d; reflexivity. Qed.
 
 Lemma dtype_eqb_refl : forall d, dtype_eqb d d = true.
 Proof. intro d. unfold dtype_eqb. apply String.eqb_refl. Qed.
@@ -169,8 +176,12 @@ Definition save_ents (o : opts) (rec : td -> dir -> res dir) :=
     : res (list (fname * content) * list (string * dir)) :=
     match es with
     | [] => Ok (files, subs)
-    | (k, Leaf l) :: r => bind (populate o k l files) (fun f' => go r f' subs)
-    | (k, c) :: r => bind (rec c (sub_dir k subs)) (fun d' => go r files (jset k d' subs))
+    | (k, x) :: r =>
+        if reserved k then Raised EValueError
+        else match x with
+             | Leaf l => bind (populate o k l files) (fun f' => go r f' subs)
+             | c => bind (rec c (sub_dir k subs)) (fun d' => go r files (jset k d' subs))
+             end
     end.
 Definition save_members (rec : td -> dir -> res dir) :=
   fix go (ms : list td) (i : nat) (subs : list (string * dir)) : res (list (string * dir)) :=
@@ -194,7 +205,7 @@ Proof. reflexivity. Qed.
 Lemma save_over_lazy : forall o sd ms files subs,
   save_over o (Lazy sd ms) (Dir files subs)
   = bind (save_members (save_over o) ms 0 subs)
-         (fun subs' => Ok (Dir (fset FMeta (CJson (JObj [("_type", JStr "LazyStackedTensorDict"); ("stack_dim", jnat sd)])) files) subs')).
+         (fun subs' => Ok (Dir (fset FMeta (CJson (JObj (lazy_meta sd (List.length ms)))) files) subs')).
 Proof. reflexivity. Qed.
 
 Lemma decode_dir : forall files subs, decode (Dir files subs) = load_top files (decode_subs subs).
@@ -210,9 +221,6 @@ Lemma norm_nstack : forall items, norm (NStack items) = NStack (norm_list items)
 Proof. reflexivity. Qed.
 Lemma tolist_nstack : forall items, tolist (NStack items) = PList (tolist_items items).
 Proof. reflexivity. Qed.
-
-(* what a loaded root looks like: a NonTensorData has lost its batch size *)
-Definition root_norm (t : td) : td := match t with NData _ p => NData [] p | _ => norm t end.
 
 (* ------------------------------------------------------------------ metadata of a node with sane keys *)
 Definition recs (ents : list (string * td)) : list (string * json) := map (fun kv => (fst kv, entry_record (snd kv))) ents.
@@ -248,7 +256,7 @@ Qed.
 Lemma node_meta_ok : forall bs ents, keys_ok ents ->
   node_meta bs ents = recs ents ++ [("shape", jshape bs); ("device", JStr "cpu"); ("_type", JStr "TensorDict")].
 Proof.
-  intros bs ents [Hnd Hres]. unfold node_meta. rewrite fold_jset_fresh; auto. cbn [app].
+  intros bs ents [Hnd Hres]. unfold node_meta. rewrite fold_jset_fresh; auto. cbn [List.app].
   rewrite (jset_fresh "shape") by (now apply sget_recs_reserved).
   rewrite (jset_fresh "device").
   2:{ rewrite sget_app_none by (now apply sget_recs_reserved). reflexivity. }
@@ -265,120 +273,145 @@ Qed.
 
 (* ------------------------------------------------------------------ a TensorDict node: what the save loop leaves *)
 Definition nonleaf (kv : string * td) : bool := negb (is_leaf (snd kv)).
-Definition leaf_files (es : list (string * td)) : list (fname * content) :=
-  flat_map (fun kv => match snd kv with Leaf l => [(FLeaf (fst kv), CCells (ldtype l) (lcells l))] | _ => [] end) es.
+(* a tensor without elements has no file *)
+Definition leaf_file (kv : string * td) : list (fname * content) :=
+  match snd kv with
+  | Leaf l => if Nat.eqb (numel (lshape l)) 0 then [] else [(FLeaf (fst kv), CCells (ldtype l) (lcells l))]
+  | _ => []
+  end.
+Definition leaf_files (es : list (string * td)) : list (fname * content) := flat_map leaf_file es.
 
 (* what the induction gives for a sub-collection c: it is saved into a fresh directory d, and d loads back *)
 Definition saved_ok (o : opts) (c : td) (d : dir) : Prop :=
-  save_over o c empty_dir = Ok d /\ decode d = Ok (root_norm c).
+  save_over o c empty_dir = Ok d /\ decode d = Ok (norm c).
 Definition entry_ok (o : opts) (kv : string * td) : Prop :=
   match snd kv with Leaf l => leaf_ok o l = true | c => exists d, saved_ok o c d end.
+
+Lemma leaf_files_cons : forall kv es, leaf_files (kv :: es) = leaf_file kv ++ leaf_files es.
+Proof. reflexivity. Qed.
+Lemma leaf_file_coll : forall k x, is_leaf x = false -> leaf_file (k, x) = [].
+Proof. intros k x H. destruct x; try discriminate; reflexivity. Qed.
+Lemma leaf_file_zero : forall k l, Nat.eqb (numel (lshape l)) 0 = true -> leaf_file (k, Leaf l) = [].
+Proof. intros k l H. unfold leaf_file. cbn. now rewrite H. Qed.
+Lemma leaf_file_nonzero : forall k l, Nat.eqb (numel (lshape l)) 0 = false ->
+  leaf_file (k, Leaf l) = [(FLeaf k, CCells (ldtype l) (lcells l))].
+Proof. intros k l H. unfold leaf_file. cbn. now rewrite H. Qed.
+
+Lemma leaf_file_keys : forall kv f c, In (f, c) (leaf_file kv) -> f = FLeaf (fst kv).
+Proof.
+  intros [k x] f c H. unfold leaf_file in H. cbn in H. destruct x; try contradiction.
+  destruct (Nat.eqb (numel (lshape l)) 0); [contradiction|]. destruct H as [H|[]]. now inversion H.
+Qed.
 
 Lemma fget_leaf_files_none : forall es k, ~ In k (map fst es) -> fget (FLeaf k) (leaf_files es) = None.
 Proof.
   induction es as [|[k' x] es IH]; intros k Hk; cbn; auto.
   assert (k <> k') by (intro; subst; apply Hk; now left).
   assert (~ In k (map fst es)) by (intro; apply Hk; now right).
-  unfold leaf_files in *. cbn. destruct x; cbn; auto.
+  unfold leaf_files in *. cbn [flat_map]. rewrite fget_app_none; auto.
+  unfold leaf_file. cbn. destruct x; cbn; auto. destruct (Nat.eqb (numel (lshape l)) 0); cbn; auto.
   destruct (String.eqb k k') eqn:E; [apply String.eqb_eq in E; congruence|auto].
 Qed.
 
+Lemma leaf_ok_parts : forall o l, leaf_ok o l = true -> Nat.eqb (List.length (lcells l)) (numel (lshape l)) = true /\ refused o l = false.
+Proof. intros o l H. unfold leaf_ok in H. apply andb_true_iff in H as [H1 H2]. apply negb_true_iff in H2. auto. Qed.
+
 Lemma save_ents_spec : forall o es files0 subs0,
-  like o = false -> NoDup (map fst es) ->
+  like o = false -> NoDup (map fst es) -> Forall (fun kv => reserved (fst kv) = false) es ->
   (forall k, In k (map fst es) -> fget (FLeaf k) files0 = None /\ sget k subs0 = None) ->
   Forall (entry_ok o) es ->
   exists sl, save_ents o (save_over o) es files0 subs0 = Ok (files0 ++ leaf_files es, subs0 ++ sl)
     /\ Forall2 (fun kv kd => fst kv = fst kd /\ saved_ok o (snd kv) (snd kd)) (filter nonleaf es) sl.
 Proof.
-  intros o es. induction es as [|[k x] es IH]; intros files0 subs0 Hlike Hnd Hfresh Hok.
+  intros o es. induction es as [|[k x] es IH]; intros files0 subs0 Hlike Hnd Hres Hfresh Hok.
   - exists []. cbn. rewrite !app_nil_r. split; auto.
   - inversion Hnd as [|? ? Hk Hnd']; subst. inversion Hok as [|? ? Hx Hok']; subst.
+    inversion Hres as [|? ? Hrk Hres']; subst. cbn [fst] in Hrk.
     destruct (Hfresh k (or_introl eq_refl)) as [Hf Hs].
-    destruct x as [l|bs' ents'|sd ms|c inner|bs' p|items].
-    + (* a tensor *)
-      unfold entry_ok in Hx; cbn in Hx. unfold leaf_ok in Hx.
-      apply andb_true_iff in Hx as [Hx Href]. apply andb_true_iff in Hx as [Hx Hsup]. apply andb_true_iff in Hx as [Hne Hlen].
-      apply negb_true_iff in Href. apply negb_true_iff in Hne.
-      cbn [save_ents]. unfold populate. rewrite Href, Hne, Hlike. cbn [bind].
-      rewrite fset_fresh by exact Hf.
-      destruct (IH (files0 ++ [(FLeaf k, CCells (ldtype l) (lcells l))]) subs0 Hlike Hnd') as (sl & E & F2); auto.
+    assert (Hcoll : forall d, is_leaf x = false -> saved_ok o x d ->
+              exists sl, bind (save_over o x (sub_dir k subs0)) (fun d' => save_ents o (save_over o) es files0 (jset k d' subs0))
+                         = Ok (files0 ++ leaf_files ((k, x) :: es), subs0 ++ sl)
+              /\ Forall2 (fun kv kd => fst kv = fst kd /\ saved_ok o (snd kv) (snd kd)) (filter nonleaf ((k, x) :: es)) sl).
+    { intros d Hxl Hd. rewrite (sub_dir_fresh _ _ Hs). rewrite (proj1 Hd). cbn [bind].
+      rewrite jset_fresh by exact Hs.
+      destruct (IH files0 (subs0 ++ [(k, d)]) Hlike Hnd' Hres') as (sl & E & F2); auto.
+      { intros k' Hk'. destruct (Hfresh k' (or_intror Hk')) as [A B]. split; auto.
+        rewrite sget_app_none by exact B. cbn. destruct (String.eqb k' k) eqn:E; auto.
+        apply String.eqb_eq in E. subst. contradiction. }
+      exists ((k, d) :: sl). split.
+      - rewrite E. rewrite leaf_files_cons, (leaf_file_coll k x Hxl). cbn [List.app]. now rewrite <- app_assoc.
+      - unfold nonleaf at 1. cbn [filter snd]. rewrite Hxl. cbn [negb]. constructor; auto. }
+    cbn [save_ents]. rewrite Hrk.
+    destruct x as [l|bs' ents'|sd ms|c inner|bs' p|items];
+      try (destruct Hx as (d & Hd); apply (Hcoll d eq_refl Hd)).
+    (* a tensor *)
+    unfold entry_ok in Hx; cbn in Hx. destruct (leaf_ok_parts o l Hx) as [Hlen Href].
+    unfold populate. rewrite Href.
+    destruct (Nat.eqb (numel (lshape l)) 0) eqn:Hne; cbn [bind].
+    + destruct (IH files0 subs0 Hlike Hnd' Hres') as (sl & E & F2); auto.
+      { intros k' Hk'. apply Hfresh. now right. }
+      exists sl. split; [|exact F2]. fold (save_ents o (save_over o)). rewrite E.
+      rewrite leaf_files_cons, (leaf_file_zero k l Hne). reflexivity.
+    + rewrite Hlike. rewrite fset_fresh by exact Hf.
+      destruct (IH (files0 ++ [(FLeaf k, CCells (ldtype l) (lcells l))]) subs0 Hlike Hnd' Hres') as (sl & E & F2); auto.
       { intros k' Hk'. destruct (Hfresh k' (or_intror Hk')) as [A B]. split; auto.
         rewrite fget_app_none by exact A. cbn. destruct (String.eqb k' k) eqn:E; auto.
         apply String.eqb_eq in E. subst. contradiction. }
-      exists sl. split; [|exact F2]. fold (save_ents o (save_over o)). rewrite E. unfold leaf_files. cbn. now rewrite <- app_assoc.
-    + destruct Hx as (d & Hd). cbn [save_ents]. rewrite (sub_dir_fresh _ _ Hs). rewrite (proj1 Hd). cbn [bind].
-      rewrite jset_fresh by exact Hs.
-      destruct (IH files0 (subs0 ++ [(k, d)]) Hlike Hnd') as (sl & E & F2); auto.
-      { intros k' Hk'. destruct (Hfresh k' (or_intror Hk')) as [A B]. split; auto.
-        rewrite sget_app_none by exact B. cbn. destruct (String.eqb k' k) eqn:E; auto.
-        apply String.eqb_eq in E. subst. contradiction. }
-      exists ((k, d) :: sl). split.
-      * fold (save_ents o (save_over o)). rewrite E. unfold leaf_files. cbn. now rewrite <- app_assoc.
-      * cbn. constructor; auto.
-    + destruct Hx as (d & Hd). cbn [save_ents]. rewrite (sub_dir_fresh _ _ Hs). rewrite (proj1 Hd). cbn [bind].
-      rewrite jset_fresh by exact Hs.
-      destruct (IH files0 (subs0 ++ [(k, d)]) Hlike Hnd') as (sl & E & F2); auto.
-      { intros k' Hk'. destruct (Hfresh k' (or_intror Hk')) as [A B]. split; auto.
-        rewrite sget_app_none by exact B. cbn. destruct (String.eqb k' k) eqn:E; auto.
-        apply String.eqb_eq in E. subst. contradiction. }
-      exists ((k, d) :: sl). split.
-      * fold (save_ents o (save_over o)). rewrite E. unfold leaf_files. cbn. now rewrite <- app_assoc.
-      * cbn. constructor; auto.
-    + destruct Hx as (d & Hd). cbn [save_ents]. rewrite (sub_dir_fresh _ _ Hs). rewrite (proj1 Hd). cbn [bind].
-      rewrite jset_fresh by exact Hs.
-      destruct (IH files0 (subs0 ++ [(k, d)]) Hlike Hnd') as (sl & E & F2); auto.
-      { intros k' Hk'. destruct (Hfresh k' (or_intror Hk')) as [A B]. split; auto.
-        rewrite sget_app_none by exact B. cbn. destruct (String.eqb k' k) eqn:E; auto.
-        apply String.eqb_eq in E. subst. contradiction. }
-      exists ((k, d) :: sl). split.
-      * fold (save_ents o (save_over o)). rewrite E. unfold leaf_files. cbn. now rewrite <- app_assoc.
-      * cbn. constructor; auto.
-    + destruct Hx as (d & Hd). cbn [save_ents]. rewrite (sub_dir_fresh _ _ Hs). rewrite (proj1 Hd). cbn [bind].
-      rewrite jset_fresh by exact Hs.
-      destruct (IH files0 (subs0 ++ [(k, d)]) Hlike Hnd') as (sl & E & F2); auto.
-      { intros k' Hk'. destruct (Hfresh k' (or_intror Hk')) as [A B]. split; auto.
-        rewrite sget_app_none by exact B. cbn. destruct (String.eqb k' k) eqn:E; auto.
-        apply String.eqb_eq in E. subst. contradiction. }
-      exists ((k, d) :: sl). split.
-      * fold (save_ents o (save_over o)). rewrite E. unfold leaf_files. cbn. now rewrite <- app_assoc.
-      * cbn. constructor; auto.
-    + destruct Hx as (d & Hd). cbn [save_ents]. rewrite (sub_dir_fresh _ _ Hs). rewrite (proj1 Hd). cbn [bind].
-      rewrite jset_fresh by exact Hs.
-      destruct (IH files0 (subs0 ++ [(k, d)]) Hlike Hnd') as (sl & E & F2); auto.
-      { intros k' Hk'. destruct (Hfresh k' (or_intror Hk')) as [A B]. split; auto.
-        rewrite sget_app_none by exact B. cbn. destruct (String.eqb k' k) eqn:E; auto.
-        apply String.eqb_eq in E. subst. contradiction. }
-      exists ((k, d) :: sl). split.
-      * fold (save_ents o (save_over o)). rewrite E. unfold leaf_files. cbn. now rewrite <- app_assoc.
-      * cbn. constructor; auto.
+      exists sl. split; [|exact F2]. fold (save_ents o (save_over o)). rewrite E.
+      rewrite leaf_files_cons, (leaf_file_nonzero k l Hne). cbn [List.app]. now rewrite <- app_assoc.
 Qed.
 
 (* ------------------------------------------------------------------ a TensorDict node: what the loader reads back *)
-Lemma fget_leaf_files_some : forall es k l, NoDup (map fst es) -> In (k, Leaf l) es ->
-  fget (FLeaf k) (leaf_files es) = Some (CCells (ldtype l) (lcells l)).
+(* the file of a tensor entry, as the loader finds it *)
+Definition leaf_file_spec (files : list (fname * content)) (k : string) (l : leaf) : Prop :=
+  if Nat.eqb (numel (lshape l)) 0 then fget (FLeaf k) files = None
+  else fget (FLeaf k) files = Some (CCells (ldtype l) (lcells l)).
+
+Lemma fget_some_in : forall f l c, fget f l = Some c -> exists c0, In (f, c0) l.
+Proof.
+  intros f l. induction l as [|[f' c'] l IH]; intro c; [discriminate|].
+  change (fget f ((f', c') :: l)) with (if fname_eqb f f' then Some c' else fget f l).
+  destruct (fname_eqb f f') eqn:E; intro H.
+  - assert (f = f').
+    { destruct f, f'; cbn in E; try discriminate; auto. apply String.eqb_eq in E. now subst. }
+    subst. exists c'. now left.
+  - destruct (IH c H) as (c0 & Hc0). exists c0. now right.
+Qed.
+
+Lemma fget_leaf_files_spec : forall es k l, NoDup (map fst es) -> In (k, Leaf l) es -> leaf_file_spec (leaf_files es) k l.
 Proof.
   induction es as [|[k' x] es IH]; intros k l Hnd Hin; [contradiction|].
-  inversion Hnd as [|? ? Hk Hnd']; subst. unfold leaf_files. cbn [flat_map fst snd].
+  inversion Hnd as [|? ? Hk Hnd']; subst. unfold leaf_files. cbn [flat_map].
   destruct Hin as [E|Hin].
-  - inversion E; subst. cbn. now rewrite String.eqb_refl.
-  - assert (k <> k') by (intro; subst; apply Hk; apply in_map_iff; exists (k', Leaf l); auto).
-    destruct x; cbn; try (apply IH; auto).
-    destruct (String.eqb k k') eqn:E; [apply String.eqb_eq in E; congruence|]. apply IH; auto.
+  - inversion E; subst. unfold leaf_file_spec, leaf_file. cbn [snd fst].
+    destruct (Nat.eqb (numel (lshape l)) 0) eqn:Hne.
+    + cbn [List.app]. now apply fget_leaf_files_none.
+    + cbn. now rewrite String.eqb_refl.
+  - assert (Hne : k <> k') by (intro; subst; apply Hk; apply in_map_iff; exists (k', Leaf l); auto).
+    specialize (IH k l Hnd' Hin). unfold leaf_file_spec in *.
+    assert (G : fget (FLeaf k) (leaf_file (k', x)) = None).
+    { destruct (fget (FLeaf k) (leaf_file (k', x))) eqn:G; auto. exfalso.
+      destruct (fget_some_in _ _ _ G) as (c0 & Hc0).
+      apply leaf_file_keys in Hc0. cbn in Hc0. inversion Hc0. contradiction. }
+    destruct (Nat.eqb (numel (lshape l)) 0); rewrite fget_app_none by exact G; exact IH.
 Qed.
 
 Lemma load_record_leaf : forall o files k l,
-  leaf_ok o l = true -> fget (FLeaf k) files = Some (CCells (ldtype l) (lcells l)) ->
+  leaf_ok o l = true -> leaf_file_spec files k l ->
   load_record files k (leaf_record l) = Ok (RLeaf (Leaf (loaded_leaf l))).
 Proof.
-  intros o files k l Hok Hf. unfold leaf_ok in Hok.
-  apply andb_true_iff in Hok as [Hok _]. apply andb_true_iff in Hok as [Hok Hsup]. apply andb_true_iff in Hok as [_ Hlen].
+  intros o files k l Hok Hf. destruct (leaf_ok_parts o l Hok) as [Hlen _]. unfold leaf_file_spec in Hf.
   unfold load_record. remember (leaf_record l) as r eqn:E.
   assert (E1 : jget "type" r = None) by (subst; reflexivity).
   assert (E2 : jget "dtype" r = Some (JStr (dtype_str (ldtype l)))) by (subst; reflexivity).
   assert (E3 : jget "shape" r = Some (jshape (lshape l))) by (subst; reflexivity).
   destruct r; try (unfold leaf_record in E; discriminate E).
-  rewrite E1, E2, E3, Hf. cbn [jstr_of]. rewrite jshape_of_jshape. rewrite (str_dtype_str _ Hsup).
-  rewrite dtype_eqb_refl, Hlen. reflexivity.
+  rewrite E1, E2, E3. cbn [jstr_of]. rewrite jshape_of_jshape.
+  destruct (Nat.eqb (numel (lshape l)) 0) eqn:Hne; rewrite Hf.
+  - rewrite str_dtype_str. unfold loaded_leaf.
+    apply Nat.eqb_eq in Hlen. apply Nat.eqb_eq in Hne. rewrite Hne in Hlen.
+    destruct (lcells l); [reflexivity|discriminate].
+  - rewrite str_dtype_str. rewrite dtype_eqb_refl, Hlen. reflexivity.
 Qed.
 
 Lemma load_record_coll : forall files k c, is_leaf c = false -> load_record files k (entry_record c) = Ok RPath.
@@ -397,7 +430,7 @@ Proof. reflexivity. Qed.
 
 Lemma load_records_spec : forall o es files,
   NoDup (map fst es) -> Forall (entry_ok o) es ->
-  (forall k l, In (k, Leaf l) es -> fget (FLeaf k) files = Some (CCells (ldtype l) (lcells l))) ->
+  (forall k l, In (k, Leaf l) es -> leaf_file_spec files k l) ->
   load_records files (recs es ++ [("_type", JStr "TensorDict")])
   = Ok (filter (fun kv => is_leaf (snd kv)) (norm_ents es), map fst (filter nonleaf es)).
 Proof.
@@ -414,17 +447,19 @@ Proof.
       destruct x; try discriminate; reflexivity.
 Qed.
 
-Lemma adopt_root_norm : forall bs c, is_leaf c = false ->
-  (match c with NData b _ => shape_eqb b bs = true | _ => True end) -> adopt bs (root_norm c) = norm c.
+Definition bs_ok (bs : list nat) (kv : string * td) : Prop :=
+  match snd kv with NData b _ => is_prefix bs b = true | _ => True end.
+
+Lemma adopt_norm : forall bs c, is_leaf c = false -> bs_ok bs ("", c) -> adopt bs (norm c) = norm c.
 Proof.
   intros bs c Hc Hb. destruct c; try discriminate; try reflexivity.
-  cbn. apply shape_eqb_eq in Hb. now subst.
+  unfold bs_ok in Hb. cbn in Hb |- *. now rewrite Hb.
 Qed.
 
 Lemma load_subs_spec : forall o bs paths es sl,
   Forall2 (fun kv kd => fst kv = fst kd /\ saved_ok o (snd kv) (snd kd)) (filter nonleaf es) sl ->
   (forall kv, In kv (filter nonleaf es) -> In (fst kv) paths) ->
-  Forall (fun kv => match snd kv with NData b _ => shape_eqb b bs = true | _ => True end) es ->
+  Forall (bs_ok bs) es ->
   load_subs bs paths (decode_subs sl) = Ok (filter (fun kv => negb (is_leaf (snd kv))) (norm_ents es)).
 Proof.
   intros o bs paths es. induction es as [|[k x] es IH]; intros sl F2 Hp Hb.
@@ -440,21 +475,28 @@ Proof.
       assert (existsb (String.eqb k) paths = true).
       { apply existsb_exists. exists k. split; [apply (Hp (k, x)); now left|apply String.eqb_refl]. }
       rewrite H0. cbn in Hdec. rewrite Hdec. cbn [bind]. fold decode_subs.
-      rewrite (IH sl' F2'); auto. cbn [bind]. rewrite adopt_root_norm; auto.
+      rewrite (IH sl' F2'); auto. cbn [bind]. rewrite adopt_norm; auto.
 Qed.
 
 Lemma fget_meta_leaf_files : forall es, fget FMeta (leaf_files es) = None.
 Proof.
-  induction es as [|[k x] es IH]; cbn; auto. unfold leaf_files in *. cbn. destruct x; cbn; auto.
+  induction es as [|[k x] es IH]; cbn; auto. unfold leaf_files in *. cbn [flat_map]. rewrite fget_app_none; auto.
+  unfold leaf_file. cbn. destruct x; cbn; auto. destruct (Nat.eqb (numel (lshape l)) 0); reflexivity.
+Qed.
+
+Lemma leaf_file_spec_app : forall files k l c, leaf_file_spec files k l -> leaf_file_spec (files ++ [(FMeta, c)]) k l.
+Proof.
+  intros files k l c H. unfold leaf_file_spec in *. destruct (Nat.eqb (numel (lshape l)) 0).
+  - rewrite fget_app_none by exact H. reflexivity.
+  - now apply fget_app_some.
 Qed.
 
 Lemma node_roundtrip : forall o bs ents,
-  like o = false -> keys_ok ents -> Forall (entry_ok o) ents ->
-  Forall (fun kv => match snd kv with NData b _ => shape_eqb b bs = true | _ => True end) ents ->
+  like o = false -> keys_ok ents -> Forall (entry_ok o) ents -> Forall (bs_ok bs) ents ->
   exists d, save_over o (Node bs ents) empty_dir = Ok d /\ decode d = Ok (norm (Node bs ents)).
 Proof.
   intros o bs ents Hlike Hkeys Hok Hbs. destruct Hkeys as [Hnd Hres].
-  destruct (save_ents_spec o ents [] [] Hlike Hnd) as (sl & E & F2); auto.
+  destruct (save_ents_spec o ents [] [] Hlike Hnd Hres) as (sl & E & F2); auto.
   unfold empty_dir. rewrite save_over_node, E. cbn [bind fst snd List.app].
   eexists. split; [reflexivity|].
   rewrite fset_fresh by apply fget_meta_leaf_files.
@@ -471,7 +513,7 @@ Proof.
     rewrite jdel_app_none by (now apply sget_recs_reserved). reflexivity. }
   rewrite Et. cbn [String.eqb Ascii.eqb Bool.eqb]. cbv beta iota. unfold load_node. rewrite Es, jshape_of_jshape, Ed.
   rewrite (load_records_spec o ents); auto.
-  2:{ intros k l Hin. apply fget_app_some. now apply fget_leaf_files_some. }
+  2:{ intros k l Hin. apply leaf_file_spec_app. now apply fget_leaf_files_spec. }
   cbn [bind fst snd].
   rewrite (load_subs_spec o bs _ ents sl F2); auto.
   intros kv Hin. now apply in_map.
@@ -553,17 +595,31 @@ Proof. intro n. unfold jnat_of, jnat. destruct (Z.of_nat n <? 0)%Z eqn:E; [apply
 Lemma Forall2_length' : forall {A B} (R : A -> B -> Prop) l1 l2, Forall2 R l1 l2 -> List.length l1 = List.length l2.
 Proof. induction 1; cbn; auto. Qed.
 
+Lemma load_members_exact : forall rl (ds : list (string * res td)) i,
+  (forall j t, nth_error rl j = Some t -> sget (string_of_nat (i + j)) ds = Some (Ok t)) ->
+  load_members (List.length rl) i ds = Ok rl.
+Proof.
+  induction rl as [|t rl IH]; intros ds i Hget; [reflexivity|].
+  cbn [List.length load_members]. specialize (Hget 0 t eq_refl) as H0. rewrite Nat.add_0_r in H0. rewrite H0. cbn [bind].
+  rewrite (IH ds (S i)); auto.
+  intros j t' Hj. replace (S i + j) with (i + S j) by lia. apply Hget. exact Hj.
+Qed.
+
+Lemma length_norm_list : forall ms, List.length (norm_list ms) = List.length ms.
+Proof. induction ms; cbn; auto. Qed.
+
 Lemma lazy_roundtrip : forall o sd ms,
-  ms <> [] -> Forall (fun m => exists d, saved_ok o m d) ms -> Forall (fun m => is_collection m = true) ms ->
+  ms <> [] -> Forall (fun m => exists d, saved_ok o m d) ms ->
   exists d, save_over o (Lazy sd ms) empty_dir = Ok d /\ decode d = Ok (norm (Lazy sd ms)).
 Proof.
-  intros o sd ms Hne Hok Hcoll.
+  intros o sd ms Hne Hok.
   destruct (save_members_spec o ms 0 [] (fun _ _ => eq_refl) Hok) as (dl & E & F2).
   unfold empty_dir. rewrite save_over_lazy, E. cbn [bind List.app fset].
   eexists. split; [reflexivity|].
-  rewrite decode_dir. unfold load_top. cbn [fget fname_eqb sget String.eqb Ascii.eqb Bool.eqb]. cbv beta iota.
-  unfold load_lazy. cbn [sget String.eqb Ascii.eqb Bool.eqb]. cbv beta iota. rewrite jnat_of_jnat.
-  rewrite (load_members_spec (norm_list ms)).
+  rewrite decode_dir. unfold load_top, lazy_meta. cbn [fget fname_eqb sget String.eqb Ascii.eqb Bool.eqb]. cbv beta iota.
+  unfold load_lazy. cbn [sget String.eqb Ascii.eqb Bool.eqb]. cbv beta iota. rewrite !jnat_of_jnat.
+  rewrite <- (length_norm_list ms).
+  rewrite (load_members_exact (norm_list ms)).
   - cbn [bind]. rewrite norm_lazy. destruct ms; [congruence|reflexivity].
   - intros j t Hj. cbn [Nat.add]. rewrite sget_decode_subs.
     assert (exists m, nth_error ms j = Some m /\ t = norm m) as (m & Hm & Ht).
@@ -574,15 +630,7 @@ Proof.
     { clear -F2 Hm. revert j Hm. induction F2; intros [|j] Hm; cbn in *; try discriminate.
       - inversion Hm; subst. eauto.
       - eauto. }
-    pose proof (sget_idx_nth dl 0 j d Hd) as G. cbn [Nat.add] in G. rewrite G. cbn [option_map]. rewrite (proj2 Hs). subst t.
-    rewrite Forall_forall in Hcoll. assert (is_collection m = true) by (apply Hcoll; eapply nth_error_In; eauto).
-    destruct m; try discriminate; reflexivity.
-  - cbn [Nat.add]. rewrite sget_decode_subs. rewrite sget_idx_beyond; auto.
-    assert (List.length (norm_list ms) = List.length ms) by (clear; induction ms; cbn; auto).
-    rewrite H. rewrite (Forall2_length' _ _ _ F2). lia.
-  - rewrite length_decode_subs, length_idx.
-    assert (List.length (norm_list ms) = List.length ms) by (clear; induction ms; cbn; auto).
-    rewrite H, (Forall2_length' _ _ _ F2). lia.
+    pose proof (sget_idx_nth dl 0 j d Hd) as G. cbn [Nat.add] in G. rewrite G. cbn [option_map]. rewrite (proj2 Hs). now subst t.
 Qed.
 
 (* ------------------------------------------------------------------ tensorclass instances *)
@@ -602,28 +650,30 @@ Qed.
 
 (* ------------------------------------------------------------------ NonTensorData *)
 Lemma ndata_roundtrip : forall o bs p,
-  payload_ok p = true ->
-  exists d, save_over o (NData bs p) empty_dir = Ok d /\ decode d = Ok (NData [] p).
+  exists d, save_over o (NData bs p) empty_dir = Ok d /\ decode d = Ok (NData bs p).
 Proof.
-  intros o bs p Hp. unfold empty_dir. cbn [save_over]. unfold ndata_files, payload_ok in *.
+  intros o bs p. unfold empty_dir. cbn [save_over]. unfold ndata_files.
   destruct (is_json_serializable p) eqn:Es.
-  - destruct (plain_roundtrip p Hp) as (j & Hj1 & Hj2). rewrite Hj1. cbn [bind fset].
+  - destruct (plain_roundtrip p (ser_plain p Es)) as (j & Hj1 & Hj2). rewrite Hj1. cbn [bind fset fdel fname_eqb].
     eexists. split; [reflexivity|].
     rewrite decode_dir. unfold load_top. cbn [fget fname_eqb sget String.eqb Ascii.eqb Bool.eqb]. cbv beta iota.
-    unfold load_ndata. cbn [fget fname_eqb sget String.eqb Ascii.eqb Bool.eqb]. cbv beta iota. now rewrite Hj2.
+    unfold load_ndata. cbn [fget fname_eqb sget String.eqb Ascii.eqb Bool.eqb]. cbv beta iota.
+    rewrite jshape_of_jshape. now rewrite Hj2.
   - cbn [bind fset fname_eqb].
     eexists. split; [reflexivity|].
     rewrite decode_dir. unfold load_top. cbn [fget fname_eqb sget String.eqb Ascii.eqb Bool.eqb]. cbv beta iota.
-    unfold load_ndata. cbn [fget fname_eqb sget String.eqb Ascii.eqb Bool.eqb]. cbv beta iota. reflexivity.
+    unfold load_ndata. cbn [fget fname_eqb sget String.eqb Ascii.eqb Bool.eqb]. cbv beta iota.
+    rewrite jshape_of_jshape. reflexivity.
 Qed.
 
 (* ------------------------------------------------------------------ NonTensorStack *)
-Definition from_list_items (nested : bool) := fix go (l : list payload) : list (res td) :=
-  match l with [] => [] | x :: r => (if nested then from_list x else Ok (NData [] x)) :: go r end.
+Definition from_list_items (nested : bool) (nd : option nat) := fix go (l : list payload) : list (res td) :=
+  match l with [] => [] | x :: r => (if nested then from_list nd x else Ok (NData [] x)) :: go r end.
 
-Lemma from_list_plist : forall l,
-  from_list (PList l)
-  = bind (all_ok (from_list_items (forallb is_plist l && forallb (fun x => Nat.eqb (plen x) (plen (hd PNone l))) l) l))
+Lemma from_list_plist : forall ndim l,
+  from_list ndim (PList l)
+  = bind (all_ok (from_list_items (forallb is_plist l && forallb (fun x => Nat.eqb (plen x) (plen (hd PNone l))) l && deeper ndim)
+                                  (option_map pred ndim) l))
          (fun items => if uniform_bs items then Ok (NStack items) else Raised EReinterpret).
 Proof. reflexivity. Qed.
 
@@ -646,52 +696,63 @@ Proof.
   rewrite (Hlen x (or_introl eq_refl)), Nat.eqb_refl. cbn. apply IH. intros y Hy. apply Hlen. now right.
 Qed.
 
-Lemma from_list_tolist : forall t, stack_ok t = true -> from_list (tolist t) = Ok t.
+Definition rank (t : td) : nat := List.length (stack_bs t).
+
+(* the stack dimensions are counted ("ndim"): whatever the payloads are — lists included — they are read back as items *)
+Lemma from_list_tolist : forall t, stack_ok t = true ->
+  match t with NStack _ => from_list (Some (rank t)) (tolist t) = Ok t | _ => True end.
 Proof.
-  induction t using td_ind'; intro Hs; try discriminate.
-  - (* NonTensorData, batch size [] *)
-    cbn in Hs. destruct bs; try discriminate. cbn [tolist nest]. destruct pl; try discriminate; reflexivity.
-  - (* NonTensorStack *)
-    rewrite stack_ok_nstack in Hs. apply andb_true_iff in Hs as [Hs Hu]. apply andb_true_iff in Hs as [Hs Hkind].
-    apply andb_true_iff in Hs as [Hne Hall].
-    rewrite tolist_nstack, from_list_plist.
-    destruct items as [|x0 items0]; [discriminate|]. set (items := x0 :: items0) in *.
-    apply orb_true_iff in Hkind as [Hd|Hn].
-    + (* all items are NonTensorData *)
-      assert (Hfirst : is_plist (tolist x0) = false).
-      { cbn in Hd, Hall. apply andb_true_iff in Hd as [Hd _]. apply andb_true_iff in Hall as [Hx _].
-        destruct x0; try discriminate. cbn in Hx. destruct bs; try discriminate. cbn. destruct p; try discriminate; reflexivity. }
-      assert (Hnest : forallb is_plist (tolist_items items) && forallb (fun x => Nat.eqb (plen x) (plen (hd PNone (tolist_items items)))) (tolist_items items) = false).
-      { unfold items. cbn [tolist_items forallb]. rewrite Hfirst. reflexivity. }
-      rewrite Hnest.
-      assert (G : all_ok (from_list_items false (tolist_items items)) = Ok items).
-      { clear -Hd Hall. induction items as [|x l IH]; cbn; auto.
-        cbn in Hd, Hall. apply andb_true_iff in Hd as [Hx Hd]. apply andb_true_iff in Hall as [Hsx Hall].
-        fold tolist_items. fold (from_list_items false). rewrite IH by assumption. cbn.
-        destruct x; try discriminate. cbn in Hsx. destruct bs; try discriminate. reflexivity. }
-      rewrite G. cbn [bind]. now rewrite Hu.
-    + (* all items are NonTensorStacks of one length *)
-      assert (Hnest : forallb is_plist (tolist_items items) && forallb (fun x => Nat.eqb (plen x) (plen (hd PNone (tolist_items items)))) (tolist_items items) = true).
-      { apply andb_true_iff. split.
-        - clear -Hn. induction items as [|x l IH]; cbn; auto. cbn in Hn. apply andb_true_iff in Hn as [Hx Hn].
-          destruct x; try discriminate. cbn. fold tolist_items.
-          assert (forallb is_plist (tolist_items l) = true).
-          { clear -Hn. induction l as [|y l IH]; cbn; auto. cbn in Hn. apply andb_true_iff in Hn as [Hy Hn].
-            destruct y; try discriminate. cbn. fold tolist_items. auto. }
-          exact H.
-        - set (n0 := List.length (match hd (NData [] PNone) items with NStack i0 => i0 | _ => [] end)) in *.
-          assert (Hlen : forall x, In x items -> plen (tolist x) = n0).
-          { intros x Hx. rewrite forallb_forall in Hn. specialize (Hn x Hx). destruct x; try discriminate.
-            apply Nat.eqb_eq in Hn. rewrite tolist_nstack. cbn [plen]. now rewrite length_tolist_items. }
-          assert (Hhd : plen (hd PNone (tolist_items items)) = n0).
-          { unfold items. cbn [tolist_items hd]. apply Hlen. now left. }
-          rewrite Hhd. apply forallb_plen. exact Hlen. }
-      rewrite Hnest.
-      assert (G : all_ok (from_list_items true (tolist_items items)) = Ok items).
-      { clear -H Hall. induction items as [|x l IH]; cbn; auto.
-        cbn in Hall. apply andb_true_iff in Hall as [Hsx Hall]. inversion H; subst.
-        fold tolist_items. fold (from_list_items true). rewrite IH by assumption. rewrite (H2 Hsx). reflexivity. }
-      rewrite G. cbn [bind]. now rewrite Hu.
+  induction t using td_ind'; intro Hs; auto.
+  rewrite stack_ok_nstack in Hs. apply andb_true_iff in Hs as [Hs Hu]. apply andb_true_iff in Hs as [Hs Hkind].
+  apply andb_true_iff in Hs as [Hne Hall].
+  rewrite tolist_nstack, from_list_plist.
+  destruct items as [|x0 items0]; [discriminate|]. set (items := x0 :: items0) in *.
+  apply orb_true_iff in Hkind as [Hd|Hn].
+  - (* all items are NonTensorData of batch size []: one stack dimension *)
+    assert (Hr : rank (NStack items) = 1).
+    { unfold rank, items. cbn [stack_bs List.length]. cbn in Hd, Hall. apply andb_true_iff in Hd as [Hd _].
+      apply andb_true_iff in Hall as [Hx _]. destruct x0; try discriminate. cbn in Hx. destruct bs; try discriminate. reflexivity. }
+    rewrite Hr. cbn [deeper Nat.ltb Nat.leb]. rewrite andb_false_r.
+    assert (G : forall nd, all_ok (from_list_items false nd (tolist_items items)) = Ok items).
+    { intro nd. clear -Hd Hall. induction items as [|x l IH]; cbn; auto.
+      cbn in Hd, Hall. apply andb_true_iff in Hd as [Hx Hd]. apply andb_true_iff in Hall as [Hsx Hall].
+      fold tolist_items. fold (from_list_items false nd). rewrite IH by assumption. cbn.
+      destruct x; try discriminate. cbn in Hsx. destruct bs; try discriminate. reflexivity. }
+    rewrite G. cbn [bind]. now rewrite Hu.
+  - (* all items are NonTensorStacks of one batch size *)
+    assert (Hx0 : exists its0, x0 = NStack its0).
+    { cbn in Hn. apply andb_true_iff in Hn as [Hn _]. destruct x0; try discriminate. eauto. }
+    destruct Hx0 as (its0 & Ex0).
+    set (r := rank x0).
+    assert (Hr : rank (NStack items) = S r).
+    { unfold rank, items. cbn [stack_bs List.length]. reflexivity. }
+    assert (Hr1 : 1 <= r). { unfold r, rank. subst x0. cbn. lia. }
+    rewrite Hr. assert (Hdeep : deeper (Some (S r)) = true). { cbn. destruct r; [lia|reflexivity]. }
+    rewrite Hdeep. cbn [option_map pred]. rewrite andb_true_r.
+    assert (Hnest : forallb is_plist (tolist_items items) && forallb (fun x => Nat.eqb (plen x) (plen (hd PNone (tolist_items items)))) (tolist_items items) = true).
+    { apply andb_true_iff. split.
+      - clear -Hn. generalize Hn. generalize (List.length match hd (NData [] PNone) items with NStack i0 => i0 | _ => [] end). intros n Hn'.
+        clear Hn. induction items as [|y l IH]; cbn; auto. cbn in Hn'. apply andb_true_iff in Hn' as [Hy Hn'].
+        destruct y; try discriminate. cbn. fold tolist_items. auto.
+      - set (n0 := List.length (match hd (NData [] PNone) items with NStack i0 => i0 | _ => [] end)) in *.
+        assert (Hlen : forall x, In x items -> plen (tolist x) = n0).
+        { intros x Hx. rewrite forallb_forall in Hn. specialize (Hn x Hx). destruct x; try discriminate.
+          apply Nat.eqb_eq in Hn. rewrite tolist_nstack. cbn [plen]. now rewrite length_tolist_items. }
+        assert (Hhd : plen (hd PNone (tolist_items items)) = n0).
+        { unfold items. cbn [tolist_items hd]. apply Hlen. now left. }
+        rewrite Hhd. apply forallb_plen. exact Hlen. }
+    rewrite Hnest.
+    assert (Hrank : forall x, In x items -> rank x = r).
+    { intros x [E|Hx]; [now subst|]. unfold uniform_bs, items in Hu. rewrite forallb_forall in Hu.
+      specialize (Hu x Hx). apply shape_eqb_eq in Hu. unfold r, rank. now rewrite Hu. }
+    assert (G : all_ok (from_list_items true (Some r) (tolist_items items)) = Ok items).
+    { clear -H Hall Hn Hrank. generalize Hn. generalize (List.length match hd (NData [] PNone) items with NStack i0 => i0 | _ => [] end). intros n Hn'. clear Hn.
+      induction items as [|x l IH]; cbn; auto.
+      cbn in Hall, Hn'. apply andb_true_iff in Hall as [Hsx Hall]. apply andb_true_iff in Hn' as [Hnx Hn']. inversion H; subst.
+      fold tolist_items. fold (from_list_items true (Some r)). rewrite IH; auto.
+      2:{ intros y Hy. apply Hrank. now right. }
+      specialize (H2 Hsx). destruct x; try discriminate. rewrite <- (Hrank (NStack items) (or_introl eq_refl)). rewrite H2. reflexivity. }
+    rewrite G. cbn [bind]. now rewrite Hu.
 Qed.
 
 Lemma norm_stack : forall t, stack_ok t = true -> norm t = t.
@@ -704,31 +765,32 @@ Proof.
 Qed.
 
 Lemma nstack_roundtrip : forall o items,
-  stack_ok (NStack items) = true -> payload_ok (tolist (NStack items)) = true ->
+  stack_ok (NStack items) = true ->
   exists d, save_over o (NStack items) empty_dir = Ok d /\ decode d = Ok (norm (NStack items)).
 Proof.
-  intros o items Hs Hp. rewrite (norm_stack _ Hs).
-  unfold empty_dir. cbn [save_over]. unfold nstack_files, payload_ok in *.
+  intros o items Hs. rewrite (norm_stack _ Hs).
+  pose proof (from_list_tolist (NStack items) Hs) as FL. cbn beta iota in FL. unfold rank in FL.
+  unfold empty_dir. cbn [save_over]. unfold nstack_files.
   destruct (is_json_serializable (tolist (NStack items))) eqn:Es.
-  - destruct (plain_roundtrip _ Hp) as (j & Hj1 & Hj2). rewrite Hj1. cbn [bind fset List.app].
+  - destruct (plain_roundtrip _ (ser_plain _ Es)) as (j & Hj1 & Hj2). rewrite Hj1. cbn [bind fset List.app].
     eexists. split; [reflexivity|].
     rewrite decode_dir. unfold load_top. cbn [fget fname_eqb sget String.eqb Ascii.eqb Bool.eqb]. cbv beta iota.
-    unfold load_nstack. cbn [fget fname_eqb sget String.eqb Ascii.eqb Bool.eqb]. cbv beta iota.
+    unfold load_nstack. cbn [fget fname_eqb sget String.eqb Ascii.eqb Bool.eqb]. cbv beta iota. rewrite jnat_of_jnat.
     assert (exists js, j = JArr js) as (js & ->).
     { rewrite tolist_nstack in Hj1. cbn in Hj1. destruct (_ (tolist_items items)) in Hj1; inversion Hj1; eauto. }
-    rewrite Hj2. now apply from_list_tolist.
+    rewrite Hj2. exact FL.
   - cbn [bind fset fname_eqb List.app].
     eexists. split; [reflexivity|].
     rewrite decode_dir. unfold load_top. cbn [fget fname_eqb sget String.eqb Ascii.eqb Bool.eqb]. cbv beta iota.
-    unfold load_nstack. cbn [fget fname_eqb sget String.eqb Ascii.eqb Bool.eqb]. cbv beta iota.
-    now apply from_list_tolist.
+    unfold load_nstack. cbn [fget fname_eqb sget String.eqb Ascii.eqb Bool.eqb]. cbv beta iota. rewrite jnat_of_jnat.
+    exact FL.
 Qed.
 
 (* ------------------------------------------------------------------ the round trip, for every valid structure *)
 Definition valid_ents (o : opts) (bs : list nat) := fix all (es : list (string * td)) : bool :=
   match es with
   | [] => true
-  | (_, x) :: r => valid o x && match x with NData b _ => shape_eqb b bs | _ => true end && all r
+  | (_, x) :: r => valid o x && match x with NData b _ => is_prefix bs b | _ => true end && all r
   end.
 Definition valid_members (o : opts) := fix all (l : list td) : bool :=
   match l with [] => true | x :: r => valid o x && is_collection x && all r end.
@@ -744,12 +806,12 @@ Proof.
   intros o t Hlike. induction t using td_ind'; intros Hv Hl; try discriminate.
   - (* TensorDict *)
     rewrite valid_node in Hv. apply andb_true_iff in Hv as [Hv Hents]. apply andb_true_iff in Hv as [Hnd Hres].
-    assert (Hok : Forall (entry_ok o) ents /\ Forall (fun kv => match snd kv with NData b _ => shape_eqb b bs = true | _ => True end) ents).
+    assert (Hok : Forall (entry_ok o) ents /\ Forall (bs_ok bs) ents).
     { clear Hnd Hres Hl. induction ents as [|[k x] ents IH]; [split; constructor|].
       cbn in Hents. apply andb_true_iff in Hents as [Hx Hents]. apply andb_true_iff in Hx as [Hvx Hbx].
       inversion H as [|? ? Hpx Hp]; subst. destruct (IH Hp Hents) as [A B]. split.
       - constructor; [|exact A]. unfold entry_ok. cbn [snd] in *. destruct x; try (apply Hpx; auto; fail). exact Hvx.
-      - constructor; [|exact B]. cbn [snd]. destruct x; auto. }
+      - constructor; [|exact B]. unfold bs_ok. cbn [snd]. destruct x; auto. }
     destruct Hok as [Hok Hbs].
     destruct (node_roundtrip o bs ents Hlike) as (d & Hd1 & Hd2); auto.
     { split; [now apply nodupb_NoDup|]. rewrite forallb_forall in Hres. apply Forall_forall. intros kv Hin.
@@ -757,13 +819,11 @@ Proof.
     exists d. split; auto.
   - (* lazy stack *)
     rewrite valid_lazy in Hv. apply andb_true_iff in Hv as [Hne Hms].
-    assert (Hok : Forall (fun m => exists d, saved_ok o m d) ms /\ Forall (fun m => is_collection m = true) ms).
-    { clear Hne Hl. induction ms as [|m ms IH]; [split; constructor|].
+    assert (Hok : Forall (fun m => exists d, saved_ok o m d) ms).
+    { clear Hne Hl. induction ms as [|m ms IH]; [constructor|].
       cbn in Hms. apply andb_true_iff in Hms as [Hm Hms]. apply andb_true_iff in Hm as [Hvm Hcm].
-      inversion H as [|? ? Hpm Hp]; subst. destruct (IH Hp Hms) as [A B]. split.
-      - constructor; [|exact A]. apply Hpm; auto. destruct m; try discriminate; reflexivity.
-      - constructor; [exact Hcm|exact B]. }
-    destruct Hok as [Hok Hcoll].
+      inversion H as [|? ? Hpm Hp]; subst. constructor; [|apply IH; auto].
+      apply Hpm; auto. destruct m; try discriminate; reflexivity. }
     destruct (lazy_roundtrip o sd ms) as (d & Hd1 & Hd2); auto.
     { intro E. subst. discriminate. }
     exists d. split; auto.
@@ -774,20 +834,18 @@ Proof.
     { apply IHt; auto. destruct t; try discriminate; reflexivity. }
     exists d. split; auto.
   - (* NonTensorData *)
-    cbn [valid] in Hv. destruct (ndata_roundtrip o bs pl Hv) as (d & Hd1 & Hd2). exists d. split; auto.
+    destruct (ndata_roundtrip o bs pl) as (d & Hd1 & Hd2). exists d. split; auto.
   - (* NonTensorStack *)
-    cbn [valid] in Hv. apply andb_true_iff in Hv as [Hs Hp].
-    destruct (nstack_roundtrip o items Hs Hp) as (d & Hd1 & Hd2). exists d. split; auto.
+    cbn [valid] in Hv.
+    destruct (nstack_roundtrip o items Hv) as (d & Hd1 & Hd2). exists d. split; auto.
 Qed.
 
 Theorem decode_encode_lemma : forall o t, valid_root o t = true -> bind (encode o t) decode = Ok (norm t).
 Proof.
-  intros o t Hv. unfold valid_root in Hv. apply andb_true_iff in Hv as [Hv Hroot]. apply andb_true_iff in Hv as [Hv Hlike].
-  apply negb_true_iff in Hlike.
-  assert (Hl : is_leaf t = false) by (destruct t; auto; discriminate).
+  intros o t Hv. unfold valid_root in Hv. apply andb_true_iff in Hv as [Hv Hl]. apply andb_true_iff in Hv as [Hv Hlike].
+  apply negb_true_iff in Hlike. apply negb_true_iff in Hl.
   destruct (saved_ok_all o t Hlike Hv Hl) as (d & Hd1 & Hd2).
-  unfold encode. rewrite Hd1. cbn [bind]. rewrite Hd2. f_equal.
-  destruct t; auto. destruct bs; [reflexivity|discriminate].
+  unfold encode. rewrite Hd1. cbn [bind]. exact Hd2.
 Qed.
 
 (* norm only reorders the entries of every node (tensors first) and marks tensors as living in the directory:
@@ -860,7 +918,7 @@ Proof.
     + inversion H; subst. cbn in Hms. apply andb_true_iff in Hms as [_ Hms]. apply IH; auto.
   - cbn [valid] in Hv. apply andb_true_iff in Hv as [Hv _]. apply andb_true_iff in Hv as [_ Hv]. cbn [norm]. constructor. auto.
   - constructor.
-  - cbn [valid] in Hv. apply andb_true_iff in Hv as [Hs _]. rewrite (norm_stack _ Hs). constructor.
+  - cbn [valid] in Hv. rewrite (norm_stack _ Hv). constructor.
     clear. induction items; constructor; auto.
     clear. induction a using td_ind'; try (constructor; auto; fail).
     + constructor; auto; intros; try tauto. rewrite H0 in H1. inversion H1; subst.
